@@ -4,7 +4,7 @@
   so the property is a set of equations between them, for EVERY file system (no well-formedness) and every
   row reader.  Go's `flag` parsing, process exit codes and stdout plumbing are decided at run time (family `cli`).
 -/
-import PgVerif.Proofs.ClusterDump
+import PgVerif.Proofs.ClusterClass
 import PgVerif.Model.Cli
 namespace PgVerif.Props.C12
 open PgVerif PgVerif.Model PgVerif.Proofs PgVerif.Proofs.Cluster List
@@ -39,6 +39,26 @@ theorem C12_remote_dbs (rr : RowReader) (fs : RemoteReader) :
   cases fs pathGlobal1262 with
   | none => rfl
   | some d => simp only; cases parsePGDatabase rr d <;> rfl
+
+/-- **Tables.**  The directory dump and the remote listing expose the same tables: for every pg_class content,
+the (oid, name, filenode, kind) of the tables DumpDatabaseFromFiles returns are those of `RemoteClient.Tables`
+that pass the dump's three filters (ordinary table, not a system table when skipping them, name filter), in the
+same order — whatever iteration order Go's map has in either path. -/
+theorem C12_remote_tables (rr : RowReader) (π π' : MapOrder TableInfo) (hπ : ∀ l, π l ~ l) (hπ' : ∀ l, π' l ~ l)
+    (cd ad : Bytes) (reader : Option FileReader) (o : Options) (tables : List (Nat × TableInfo))
+    (ht : parsePGClass rr cd = .ok tables) (ts : List TableDump)
+    (h : dumpDatabaseFromFiles rr π cd ad reader o = .ok ts) :
+    ts.map tableKey = ((tablesOf π' tables).filter (keepTable o)).map infoKey := by
+  rw [dump_tables rr π hπ cd ad reader o tables ht ts h]
+  have hk := parsePGClass_keysOK rr cd tables ht
+  have : tablesOf π' tables = sortByFilenode (tables.map (·.2)) := by
+    unfold tablesOf
+    rw [sortByFilenode_eq, sortByFilenode_eq]
+    apply sortBy_perm_invariant
+    · exact (hπ' tables).map _
+    · intro a ha b hb hab
+      exact keysOK_inj tables hk a (((hπ' tables).map _).subset ha) b (((hπ' tables).map _).subset hb) hab
+  rw [this]
 
 /-- **Columns.**  The attributes a client reports for (database, relation) are the entry of the relation's oid in
 `ParsePGAttribute(base/<db>/1249, version of PG_VERSION)` — the list `dumpTable` receives when the directory dump
@@ -201,6 +221,7 @@ example : noModeFlag { dataDir := [47], dbFilter := [97], sqlOutput := true } :=
 
 #print axioms C12_files
 #print axioms C12_remote_dbs
+#print axioms C12_remote_tables
 #print axioms C12_remote_cols
 #print axioms C12_query
 #print axioms C12_dumpTable_rows
